@@ -100,6 +100,16 @@ def extract():
     ab = re.sub(r"\s+", " ", fn_body(whole, "accept_and_serve"))
     one_report = ab.count("self.report_error(") == 2 and "ConnectionError::Connection(err)" in ab and "ConnectionError::Handshake(err)" in ab
 
+    # peer ids: one atomic read-modify-write on the shared counter
+    id_fetch_add = bool(re.search(r"let\s+peer_id_value\s*=\s*config\.peer_id_counter\.fetch_add\(\s*1\s*,", body)) \
+        and not re.search(r"peer_id_counter\s*\.\s*(store|load|swap|compare_exchange)", body)
+    # with_peer_registry appends its two hooks through the ordinary registrars, which push at the end
+    wb = re.sub(r"\s+", " ", fn_body(whole, "with_peer_registry"))
+    appended = bool(re.search(r"self\.on_peer_connect\(move \|peer\| insert_registry\.insert\(peer\)\) \.on_peer_disconnect\(move \|id\| \{ remove_registry\.remove\(id\); \}\)", wb)) \
+        and ".insert(" not in wb.replace("insert_registry.insert(peer)", "") \
+        and "self.on_connect.push(" in fn_body(whole, "on_peer_connect") and "self.on_disconnect.push(" in fn_body(whole, "on_peer_disconnect") \
+        and "self.on_connect_ctx.push(" in fn_body(whole, "on_peer_connect_with_handshake")
+
     src = read(SRC)
     facts = {
         "writerBeforeGuard": spawn.start() < guard.start(),
@@ -111,6 +121,8 @@ def extract():
         "pathCheckExact": path_exact,
         "normalizeThreeBranches": norm_form and norm_lits,
         "oneErrorReportPerOutcome": one_report,
+        "peerIdFetchAdd": id_fetch_add,
+        "hooksInRegistrationOrder": appended,
         "anchors": {"writer_spawn": f"{SRC}:{_line(src, off + spawn.start())}", "guard": f"{SRC}:{_line(src, off + guard.start())}",
                     "connect_loops": f"{SRC}:{_line(src, off + h1.start())},{_line(src, off + h2.start())}",
                     "reader": f"{SRC}:{_line(src, off + rd.start())}", "shutdown_signal": f"{SRC}:{_line(src, off + sig.start())}"},
@@ -135,6 +147,10 @@ def render(f):
           f"def normalizeThreeBranches : Bool := {b(f['normalizeThreeBranches'])}",
           "/-- `accept_and_serve` calls `report_error` once in the handshake-error arm and once under `if let Err(err)` of the serve result -/",
           f"def oneErrorReportPerOutcome : Bool := {b(f['oneErrorReportPerOutcome'])}",
+          "/-- the connection's PeerId is `config.peer_id_counter.fetch_add(1, ..)` and the counter is not otherwise loaded/stored there -/",
+          f"def peerIdFetchAdd : Bool := {b(f['peerIdFetchAdd'])}",
+          "/-- every registrar pushes at the end of its chain and `with_peer_registry` registers through them: hooks run in registration order -/",
+          f"def hooksInRegistrationOrder : Bool := {b(f['hooksInRegistrationOrder'])}",
           "", "end Repe.Gen.Lifecycle"]
     return "\n".join(L) + "\n"
 
